@@ -1,5 +1,7 @@
 import LoraVerif.Model.Mac
 import LoraVerif.Lemmas.ExceptLemmas
+import LoraVerif.Lemmas.Ghost
+import LoraVerif.Lemmas.MacWFStep
 /-!
 # C08 — MAC command handling is consistent and atomic: the device does what it answers
 
@@ -13,6 +15,17 @@ implementation's own outputs).
   (`rxParamSetup_*`, `linkAdr_*`, `newChannel_*`, `dlChannel_*`);
 * unambiguously invalid requests are rejected (`*_rejects_*`);
 * stickiness: `retainSticky` keeps exactly RXParamSetupAns/RXTimingSetupAns/DlChannelAns (`retainSticky_spec`).
+* THE WHOLE COMMAND STREAM: `handleCmds_answers` / `accept_answers` — after `handle_downlink_macs` the
+  pending queue is the old queue followed by the longest prefix that fits 15 bytes (`fit`: cut only at
+  the limit, nothing later kept) of "one answer per handled request, in request order, a LinkADRReq
+  block answered with identical copies" (`Answers`), each answer with its outcome: acknowledged ⇒ took
+  effect exactly, rejected ⇒ changed nothing (the per-command theorems composed along `handleCmds`;
+  `handleCmds_adr_run`: a block is decided once, with DataRate_TXPower of its last command).
+* HISTORIES: `history_answers` — along every run every uplink carries exactly the owed answers; after
+  a downlink accepted in a Class A window (judged by the reference tracker) the device owes the
+  fitting prefix of the answers to that frame, sticky answers are repeated until the next such
+  downlink, all others are sent once (`AnsStep`); `history_effects` — at every such uplink the state
+  after is the `Answers`-outcome of the frame's command streams applied to the state before.
 -/
 open Model Gen.Region
 
@@ -322,6 +335,697 @@ theorem newChannel_atomic (rs rs' : RegionState) (index freq : Nat) (dr : Option
               cases Except.pure_eq_ok h
               refine ⟨by omega, by simp, fun hh => absurd hh hboth⟩
 
+/-! ## the whole command stream of a downlink -/
+
+
+/-- a LinkADRReq block applied to the working copy of the channel mask: every command of the block
+updates it; a ChMaskCntl the region does not define marks the whole block -/
+def blockMask (region : RegionState) : Mask → Bool → List (List Nat) → M (Mask × Bool)
+  | mask, rfu, [] => pure (mask, rfu)
+  | mask, rfu, p :: ps => do
+    let b3 ← byteAt p 3
+    let b1 ← byteAt p 1
+    let b2 ← byteAt p 2
+    let upd ← channelMaskUpdate region mask ((b3 / 16) % 8) b1 b2
+    match upd with
+    | some m => blockMask region m rfu ps
+    | none => blockMask region mask true ps
+
+def startsAdr : List (Nat × List Nat) → Bool
+  | (0x03, _) :: _ => true
+  | _ => false
+
+/-- the model's handling of a maximal run of LinkADRReq commands: fold the masks, decide once (with
+DataRate_TXPower of the LAST command), answer every command of the run with that decision, go on with
+a fresh working copy -/
+theorem handleCmds_adr_run (snr : Int) (ps : List (List Nat)) (p : List Nat) (rest : List (Nat × List Nat)) (c : MacCtx)
+    (mask : Mask) (rfu : Bool) (nAdr : Nat) (hr : startsAdr rest = false) :
+    handleCmds snr ((ps ++ [p]).map (fun q => (0x03, q)) ++ rest) c mask rfu nAdr =
+      (blockMask c.region mask rfu (ps ++ [p]) >>= fun mr =>
+        finishLinkAdrBlock c mr.1 mr.2 (nAdr + ps.length + 1) p >>= fun c1 =>
+          handleCmds snr rest c1 (channelMaskGet c1.region) false 0) := by
+  induction ps generalizing mask rfu nAdr with
+  | nil =>
+    simp only [List.nil_append, List.map_cons, List.map_nil, List.cons_append, List.length_nil, Nat.add_zero]
+    rw [handleCmds]
+    simp only [blockMask, bind, Except.bind]
+    cases byteAt p 3 with
+    | error e => rfl
+    | ok b3 =>
+      simp only []
+      cases byteAt p 1 with
+      | error e => rfl
+      | ok b1 =>
+        simp only []
+        cases byteAt p 2 with
+        | error e => rfl
+        | ok b2 =>
+          simp only []
+          cases channelMaskUpdate c.region mask (b3 / 16 % 8) b1 b2 with
+          | error e => rfl
+          | ok upd =>
+            simp only []
+            cases upd with
+            | none =>
+              simp only [pure, Except.pure]
+              split
+              · rename_i q tail; simp [startsAdr] at hr
+              · rfl
+            | some m =>
+              simp only [pure, Except.pure]
+              split
+              · rename_i q tail; simp [startsAdr] at hr
+              · rfl
+  | cons q ps ih =>
+    simp only [List.cons_append, List.map_cons, List.length_cons]
+    rw [handleCmds]
+    simp only [blockMask, bind, Except.bind]
+    cases byteAt q 3 with
+    | error e => rfl
+    | ok b3 =>
+      simp only []
+      cases byteAt q 1 with
+      | error e => rfl
+      | ok b1 =>
+        simp only []
+        cases byteAt q 2 with
+        | error e => rfl
+        | ok b2 =>
+          simp only []
+          cases channelMaskUpdate c.region mask (b3 / 16 % 8) b1 b2 with
+          | error e => rfl
+          | ok upd =>
+            simp only []
+            have hnext : ∃ q' tail, (ps ++ [p]).map (fun q => ((0x03 : Nat), q)) ++ rest = (0x03, q') :: tail := by
+              cases ps with
+              | nil => exact ⟨p, rest, rfl⟩
+              | cons q' ps' => exact ⟨q', _, rfl⟩
+            obtain ⟨q', tail, hnext⟩ := hnext
+            cases upd with
+            | none =>
+              simp only []
+              have := ih mask true (nAdr + 1)
+              rw [hnext] at this ⊢
+              simp only []
+              rw [this]
+              have : nAdr + 1 + ps.length + 1 = nAdr + (ps.length + 1) + 1 := by omega
+              rw [this]; rfl
+            | some m =>
+              simp only []
+              have := ih m rfu (nAdr + 1)
+              rw [hnext] at this ⊢
+              simp only []
+              rw [this]
+              have : nAdr + 1 + ps.length + 1 = nAdr + (ps.length + 1) + 1 := by omega
+              rw [this]; rfl
+
+
+
+/-! ## the whole command stream -/
+
+abbrev Cmd := Nat × List Nat
+abbrev Ans := Nat × List Nat
+/-- configuration, channel plan, and the working copy of the channel mask LinkADRReq blocks start
+from (`region.channel_mask_get()` at the start of the downlink and again after each block) -/
+abbrev St := Config × RegionState × Mask
+
+/-- the requests this device handles (and answers) in region `r`; everything else is skipped -/
+def handled (r : RegionId) (cid : Nat) : Bool :=
+  cid == 0x03 || cid == 0x05 || cid == 0x06 || cid == 0x08 || ((cid == 0x07 || cid == 0x0A) && !r.isFixed)
+
+/-- RXParamSetupReq with answer `ans`: acknowledged ⇒ exactly the commanded RX1 offset, RX2 data rate
+and RX2 frequency; any rejection ⇒ nothing changed; invalid fields are rejected bit by bit -/
+def RxParamOutcome (st : St) (p : List Nat) (ans : Nat) (st' : St) : Prop :=
+  ∃ dl f, byteAt p 0 = .ok dl ∧ freq24 p 1 = .ok f ∧ st'.2 = st.2 ∧
+    (ans = 7 → st'.1 = { st.1 with rx2DataRate := (if dl % 16 == 15 then st.1.rx2DataRate else some (dl % 16)),
+                                    rx2Frequency := some f, rx1DrOffset := (dl / 16) % 8 }) ∧
+    (ans ≠ 7 → st'.1 = st.1) ∧
+    (frequencyValid st.2.1.id f = false → ans % 2 = 0) ∧
+    ((dl % 16 ≠ 15 ∧ getDatarate st.2.1.id (dl % 16) = none) → ans / 2 % 2 = 0) ∧
+    (maxRx1DrOffset st.2.1.id < (dl / 16) % 8 → ans / 4 = 0) ∧ ans ≤ 7
+
+/-- RXTimingSetupReq: always accepted, the delay is the commanded one -/
+def RxTimingOutcome (st : St) (p : List Nat) (st' : St) : Prop :=
+  ∃ b d, byteAt p 0 = .ok b ∧ delToDelayMs (b % 16) = .ok d ∧ st' = ({ st.1 with rx1Delay := d }, st.2)
+
+/-- NewChannelReq (dynamic plans): see `newChannel_atomic` -/
+def NewChannelOutcome (st : St) (p : List Nat) (ans : Nat) (st' : St) : Prop :=
+  ∃ idx f r a b, byteAt p 0 = .ok idx ∧ freq24 p 1 = .ok f ∧ byteAt p 4 = .ok r ∧
+    ans = (if a then 1 else 0) + (if b then 2 else 0) ∧ st'.1 = st.1 ∧ st'.2.2 = st.2.2 ∧
+    ((idx < numJoinChannels st.2.1.id ∨ idx ≥ 16) → a = false ∧ b = false) ∧
+    ((a && b) = false → st'.2.1 = st.2.1) ∧
+    ((a && b) = true → ∃ pl m, st.2.1.plan = .dyn pl ∧ numJoinChannels st.2.1.id ≤ idx ∧ idx < 16 ∧
+      ((f = 0 ∧ pl.mask.setChannel idx false = .ok m ∧ st'.2.1 = setSlot st.2.1 pl idx none m)
+       ∨ (f ≠ 0 ∧ frequencyValid st.2.1.id f = true ∧ r % 16 ≤ r / 16 ∧ pl.mask.setChannel idx true = .ok m ∧
+          st'.2.1 = setSlot st.2.1 pl idx (some { freq := f, drRange := r, dlFreq := none }) m)))
+
+/-- DlChannelReq (dynamic plans): see `dlChannel_atomic` -/
+def DlChannelOutcome (st : St) (p : List Nat) (ans : Nat) (st' : St) : Prop :=
+  ∃ idx f a b, byteAt p 0 = .ok idx ∧ freq24 p 1 = .ok f ∧
+    ans = (if a then 1 else 0) + (if b then 2 else 0) ∧ st'.1 = st.1 ∧ st'.2.2 = st.2.2 ∧
+    a = frequencyValid st.2.1.id f ∧
+    ((a && b) = false → st'.2.1 = st.2.1) ∧
+    ((a && b) = true → ∃ pl c, st.2.1.plan = .dyn pl ∧ idx < 16 ∧ pl.channels[idx]? = some (some c) ∧ c.freq ≠ 0 ∧
+        pl.mask.isEnabled idx = .ok true ∧ st'.2.1 = setSlot st.2.1 pl idx (some (withDl c f)) pl.mask)
+
+/-- a LinkADRReq block (`ps`: the payloads of its commands, `last` the final one): ONE decision
+`ans` for the whole block; fully acknowledged ⇒ data rate and TX power are those of the LAST command,
+the channel mask is the working copy after all commands of the block; any rejection ⇒ nothing changed;
+an undefined ChMaskCntl, data rate or power index is refused -/
+def LinkAdrOutcome (st : St) (ps : List (List Nat)) (last : List Nat) (ans : Nat) (st' : St) : Prop :=
+  ∃ mask rfu b0, blockMask st.2.1 st.2.2 false ps = .ok (mask, rfu) ∧ byteAt last 0 = .ok b0 ∧
+    (ans = 7 → ∃ d pw, linkAdrDr st.1 st.2.1.id (b0 / 16) = some d ∧ linkAdrPw st.1 st.2.1.id (b0 % 16) = .ok (some pw) ∧
+        st'.1 = { st.1 with dataRate := d, txPower := pw } ∧ st'.2.1 = channelMaskSet st.2.1 mask) ∧
+    (ans ≠ 7 → st'.1 = st.1 ∧ st'.2.1 = st.2.1) ∧
+    st'.2.2 = channelMaskGet st'.2.1 ∧
+    (rfu = true → ans % 2 = 0) ∧
+    ((b0 / 16 ≠ 15 ∧ isUplinkDatarate st.2.1.id (b0 / 16) = false) → ans / 2 % 2 = 0) ∧
+    ((b0 % 16 ≠ 15 ∧ txPowerAdjust st.2.1.id (b0 % 16) = .ok none) → ans / 4 = 0) ∧ ans ≤ 7
+
+/-- **the answers to a downlink's command stream, and what the stream did**: one answer per handled
+request, in request order; a LinkADRReq block is answered with identical copies (one per command);
+each answer goes with the outcome the property demands (acknowledged ⇒ took effect exactly,
+rejected ⇒ changed nothing) -/
+inductive Answers (snr : Int) : List Cmd → St → List Ans → St → Prop
+  | nil (st : St) : Answers snr [] st [] st
+  | skip (cid : Nat) (p : List Nat) (rest : List Cmd) (st : St) (as : List Ans) (st' : St)
+      (h : handled st.2.1.id cid = false) (hr : Answers snr rest st as st') : Answers snr ((cid, p) :: rest) st as st'
+  | devStatus (p : List Nat) (rest : List Cmd) (st : St) (as : List Ans) (st' : St)
+      (hr : Answers snr rest st as st') : Answers snr ((0x06, p) :: rest) st ((0x06, [255, devStatusMargin snr]) :: as) st'
+  | rxParam (p : List Nat) (rest : List Cmd) (st : St) (ans : Nat) (st1 : St) (as : List Ans) (st' : St)
+      (h : RxParamOutcome st p ans st1) (hr : Answers snr rest st1 as st') :
+      Answers snr ((0x05, p) :: rest) st ((0x05, [ans]) :: as) st'
+  | rxTiming (p : List Nat) (rest : List Cmd) (st st1 : St) (as : List Ans) (st' : St)
+      (h : RxTimingOutcome st p st1) (hr : Answers snr rest st1 as st') :
+      Answers snr ((0x08, p) :: rest) st ((0x08, []) :: as) st'
+  | newChannel (p : List Nat) (rest : List Cmd) (st : St) (ans : Nat) (st1 : St) (as : List Ans) (st' : St)
+      (hf : st.2.1.id.isFixed = false) (h : NewChannelOutcome st p ans st1) (hr : Answers snr rest st1 as st') :
+      Answers snr ((0x07, p) :: rest) st ((0x07, [ans]) :: as) st'
+  | dlChannel (p : List Nat) (rest : List Cmd) (st : St) (ans : Nat) (st1 : St) (as : List Ans) (st' : St)
+      (hf : st.2.1.id.isFixed = false) (h : DlChannelOutcome st p ans st1) (hr : Answers snr rest st1 as st') :
+      Answers snr ((0x0A, p) :: rest) st ((0x0A, [ans]) :: as) st'
+  | linkAdr (ps : List (List Nat)) (p : List Nat) (rest : List Cmd) (st : St) (ans : Nat) (st1 : St) (as : List Ans) (st' : St)
+      (hrest : startsAdr rest = false) (h : LinkAdrOutcome st (ps ++ [p]) p ans st1) (hr : Answers snr rest st1 as st') :
+      Answers snr ((ps ++ [p]).map (fun q => (0x03, q)) ++ rest) st (List.replicate (ps.length + 1) (0x03, [ans]) ++ as) st'
+
+/-- queueing a list of answers -/
+def pushAll (c : MacCtx) (as : List Ans) : MacCtx := as.foldl (fun c a => c.push a.1 a.2) c
+
+theorem pushAll_cfg (c : MacCtx) (as : List Ans) : (pushAll c as).cfg = c.cfg ∧ (pushAll c as).region = c.region := by
+  induction as generalizing c with
+  | nil => exact ⟨rfl, rfl⟩
+  | cons a rest ih =>
+    simp only [pushAll, List.foldl_cons]
+    have := ih (c.push a.1 a.2)
+    simp only [pushAll] at this
+    rw [this.1, this.2]
+    exact push_cfg c a.1 a.2
+
+theorem adr_split (cmds : List Cmd) (h : startsAdr cmds = true) :
+    ∃ ps p rest, cmds = (ps ++ [p]).map (fun q => ((0x03 : Nat), q)) ++ rest ∧ startsAdr rest = false := by
+  induction cmds with
+  | nil => simp [startsAdr] at h
+  | cons x rest ih =>
+    obtain ⟨cid, q⟩ := x
+    have hc : cid = 3 := by
+      unfold startsAdr at h
+      split at h
+      · rename_i heq; simp only [List.cons.injEq, Prod.mk.injEq] at heq; exact heq.1.1
+      · cases h
+    subst hc
+    by_cases hr : startsAdr rest = true
+    · obtain ⟨ps, p, rest', e, hr'⟩ := ih hr
+      exact ⟨q :: ps, p, rest', by rw [e]; rfl, hr'⟩
+    · exact ⟨[], q, rest, rfl, by simpa using hr⟩
+
+
+theorem handleCmds_skip (snr : Int) (cid : Nat) (p : List Nat) (rest : List Cmd) (c : MacCtx) (mask : Mask) (rfu : Bool) (nAdr : Nat)
+    (h : handled c.region.id cid = false) :
+    handleCmds snr ((cid, p) :: rest) c mask rfu nAdr = handleCmds snr rest c mask rfu nAdr := by
+  unfold handled at h
+  simp only [Bool.or_eq_false_iff, Bool.and_eq_false_iff, beq_eq_false_iff_ne, ne_eq, Bool.not_eq_false'] at h
+  obtain ⟨⟨⟨⟨h3, h5⟩, h6⟩, h8⟩, h7a⟩ := h
+  by_cases e7 : cid = 7
+  · subst e7
+    have hf : c.region.id.isFixed = true := by rcases h7a with h | h; exact absurd rfl h.1; exact h
+    rw [handleCmds]; simp [hf]
+  · by_cases e10 : cid = 10
+    · subst e10
+      have hf : c.region.id.isFixed = true := by rcases h7a with h | h; exact absurd rfl h.2; exact h
+      rw [handleCmds]; simp [hf]
+    · rw [handleCmds] <;> (intro e; first | exact h3 e | exact h5 e | exact h6 e | exact h8 e | exact e7 e | exact e10 e)
+
+/-- the state a context stands for, with working mask copy `mask` -/
+def stOf (c : MacCtx) (mask : Mask) : St := (c.cfg, c.region, mask)
+
+theorem pushAll_cons (c : MacCtx) (a : Ans) (as : List Ans) : pushAll c (a :: as) = pushAll (c.push a.1 a.2) as := rfl
+
+theorem pushAll_append (c : MacCtx) (as bs : List Ans) : pushAll c (as ++ bs) = pushAll (pushAll c as) bs := by
+  simp [pushAll, List.foldl_append]
+
+theorem pushAll_replicate (c : MacCtx) (n : Nat) (cid : Nat) (pl : List Nat) :
+    (List.range n).foldl (fun c _ => c.push cid pl) c = pushAll c (List.replicate n (cid, pl)) := by
+  induction n generalizing c with
+  | zero => rfl
+  | succ n ih =>
+    rw [List.range_succ, List.foldl_append, ih]
+    simp only [List.foldl_cons, List.foldl_nil]
+    rw [List.replicate_succ', pushAll_append]
+    rfl
+
+/-- pushing answers onto a context with other configuration: pending and flag move alike -/
+theorem pushAll_pending_congr (c d : MacCtx) (as : List Ans) (hp : c.pending = d.pending) (hf : c.full = d.full) :
+    (pushAll c as).pending = (pushAll d as).pending ∧ (pushAll c as).full = (pushAll d as).full := by
+  induction as generalizing c d with
+  | nil => exact ⟨hp, hf⟩
+  | cons a rest ih =>
+    rw [pushAll_cons, pushAll_cons]
+    apply ih
+    · unfold MacCtx.push; rw [hp, hf]; (repeat' split) <;> simp_all
+    · unfold MacCtx.push; rw [hp, hf]; (repeat' split) <;> simp_all
+
+theorem handleCmds_sem_aux (snr : Int) (n : Nat) : ∀ (cmds : List Cmd), cmds.length ≤ n → ∀ (c c' : MacCtx) (mask : Mask),
+    handleCmds snr cmds c mask false 0 = .ok c' →
+    ∃ as mask', Answers snr cmds (stOf c mask) as (stOf c' mask') ∧
+      c'.pending = (pushAll c as).pending ∧ c'.full = (pushAll c as).full := by
+  induction n with
+  | zero =>
+    intro cmds hlen c c' mask h
+    have : cmds = [] := List.length_eq_zero_iff.mp (by omega)
+    subst this
+    rw [handleCmds] at h
+    cases h
+    exact ⟨[], mask, .nil _, rfl, rfl⟩
+  | succ n ih =>
+    intro cmds hlen c c' mask h
+    cases cmds with
+    | nil =>
+      rw [handleCmds] at h
+      cases h
+      exact ⟨[], mask, .nil _, rfl, rfl⟩
+    | cons x rest =>
+      obtain ⟨cid, p⟩ := x
+      have hrl : rest.length ≤ n := by simp only [List.length_cons] at hlen; omega
+      by_cases hh : handled c.region.id cid = false
+      · rw [handleCmds_skip snr cid p rest c mask false 0 hh] at h
+        obtain ⟨as, mask', ha, hp, hf⟩ := ih rest hrl c c' mask h
+        exact ⟨as, mask', .skip cid p rest _ as _ hh ha, hp, hf⟩
+      · have hh' : handled c.region.id cid = true := by simpa using hh
+        unfold handled at hh'
+        simp only [Bool.or_eq_true, Bool.and_eq_true, beq_iff_eq, Bool.not_eq_true'] at hh'
+        rcases hh' with (((h3 | h5) | h6) | h8) | ⟨h7a, hfix⟩
+        · -- LinkADRReq block
+          subst h3
+          obtain ⟨ps, pl, rest', e, hr'⟩ := adr_split ((3, p) :: rest) rfl
+          rw [e, handleCmds_adr_run snr ps pl rest' c mask false 0 hr'] at h
+          obtain ⟨⟨mk, rfu⟩, hbm, h⟩ := Except.bind_eq_ok h
+          obtain ⟨c1, hfin, h⟩ := Except.bind_eq_ok h
+          have hlen' : rest'.length ≤ n := by
+            have := congrArg List.length e
+            simp only [List.length_cons, List.length_append, List.length_map, List.length_nil] at this
+            simp only [List.length_cons] at hlen
+            omega
+          obtain ⟨as, mask', ha, hp, hf⟩ := ih rest' hlen' c1 c' _ h
+          unfold finishLinkAdrBlock at hfin
+          obtain ⟨b0, hb0, hfin⟩ := Except.bind_eq_ok hfin
+          obtain ⟨⟨ans, cfg1, region1⟩, hdec, hfin⟩ := Except.bind_eq_ok hfin
+          have hc1 := Except.pure_eq_ok hfin
+          simp only [Nat.zero_add] at hc1
+          rw [pushAll_replicate] at hc1
+          obtain ⟨hatom7, hatomN⟩ := linkAdr_atomic c.cfg c.region mk rfu (b0 / 16) (b0 % 16) ans cfg1 region1 hdec
+          obtain ⟨hrj1, hrj2, hrj3⟩ := linkAdr_rejects c.cfg c.region mk rfu (b0 / 16) (b0 % 16) ans cfg1 region1 hdec
+          have hcfg1 : c1.cfg = cfg1 ∧ c1.region = region1 := by rw [← hc1]; exact pushAll_cfg _ _
+          have hout : LinkAdrOutcome (stOf c mask) (ps ++ [pl]) pl ans (stOf c1 (channelMaskGet c1.region)) := by
+            have hle : ans ≤ 7 := by
+              obtain ⟨pw', cm', _, _, hres⟩ := linkAdr_decide_eq _ _ _ _ _ _ _ hdec
+              cases cm' <;> cases hd' : linkAdrDr c.cfg c.region.id (b0 / 16) <;> cases pw' <;> simp only [hd'] at hres <;>
+                simp only [Prod.mk.injEq] at hres <;> obtain ⟨rfl, _, _⟩ := hres <;> simp
+            refine ⟨mk, rfu, b0, hbm, hb0, ?_, ?_, rfl, hrj1, hrj2, hrj3, hle⟩
+            · intro h7
+              obtain ⟨d, pw, hd, hpw, e1, e2⟩ := hatom7 h7
+              exact ⟨d, pw, hd, hpw, by simp only [stOf]; rw [hcfg1.1, e1], by simp only [stOf]; rw [hcfg1.2, e2]⟩
+            · intro hn
+              obtain ⟨e1, e2⟩ := hatomN hn
+              exact ⟨by simp only [stOf]; rw [hcfg1.1, e1], by simp only [stOf]; rw [hcfg1.2, e2]⟩
+          refine ⟨List.replicate (ps.length + 1) (3, [ans]) ++ as, mask', ?_, ?_, ?_⟩
+          · rw [e]; exact .linkAdr ps pl rest' _ ans _ as _ hr' hout ha
+          · rw [hp, pushAll_append]
+            have := pushAll_pending_congr c1 (pushAll c (List.replicate (ps.length + 1) (3, [ans]))) as
+              (by rw [← hc1]; exact (pushAll_pending_congr { c with cfg := cfg1, region := region1 } c _ rfl rfl).1) (by rw [← hc1]; exact (pushAll_pending_congr { c with cfg := cfg1, region := region1 } c _ rfl rfl).2)
+            exact this.1
+          · rw [hf, pushAll_append]
+            have := pushAll_pending_congr c1 (pushAll c (List.replicate (ps.length + 1) (3, [ans]))) as
+              (by rw [← hc1]; exact (pushAll_pending_congr { c with cfg := cfg1, region := region1 } c _ rfl rfl).1) (by rw [← hc1]; exact (pushAll_pending_congr { c with cfg := cfg1, region := region1 } c _ rfl rfl).2)
+            exact this.2
+        · -- RXParamSetupReq
+          subst h5
+          rw [handleCmds] at h
+          obtain ⟨dl, hdl, h⟩ := Except.bind_eq_ok h
+          obtain ⟨f, hf24, h⟩ := Except.bind_eq_ok h
+          simp only at h
+          obtain ⟨as, mask', ha, hp, hf⟩ := ih rest hrl _ c' mask h
+          refine ⟨(5, [(rxParamSetup c.cfg c.region.id dl f).1]) :: as, mask', ?_, ?_, ?_⟩
+          · refine .rxParam p rest _ _ (stOf ({ c with cfg := (rxParamSetup c.cfg c.region.id dl f).2 }.push 5 [(rxParamSetup c.cfg c.region.id dl f).1]) mask) as _ ?_ ha
+            have hpc := push_cfg { c with cfg := (rxParamSetup c.cfg c.region.id dl f).2 } 5 [(rxParamSetup c.cfg c.region.id dl f).1]
+            obtain ⟨r1, r2, r3⟩ := rxParamSetup_rejects c.cfg c.region.id dl f
+            have hle : (rxParamSetup c.cfg c.region.id dl f).1 ≤ 7 := by
+              unfold rxParamSetup; simp only []; (repeat' split) <;> omega
+            refine ⟨dl, f, hdl, hf24, ?_, ?_, ?_, r1, r2, r3, hle⟩
+            · simp only [stOf]; rw [hpc.2]
+            · intro h7; simp only [stOf]; rw [hpc.1]; exact rxParamSetup_ack c.cfg c.region.id dl f h7
+            · intro h7; simp only [stOf]; rw [hpc.1]; exact rxParamSetup_nak c.cfg c.region.id dl f h7
+          · rw [hp, pushAll_cons]
+            exact (pushAll_pending_congr _ _ as (by unfold MacCtx.push; (repeat' split) <;> rfl) (by unfold MacCtx.push; (repeat' split) <;> rfl)).1
+          · rw [hf, pushAll_cons]
+            exact (pushAll_pending_congr _ _ as (by unfold MacCtx.push; (repeat' split) <;> rfl) (by unfold MacCtx.push; (repeat' split) <;> rfl)).2
+        · -- DevStatusReq
+          subst h6
+          rw [handleCmds] at h
+          obtain ⟨as, mask', ha, hp, hf⟩ := ih rest hrl _ c' mask h
+          have hpc := push_cfg c 6 [255, devStatusMargin snr]
+          refine ⟨(6, [255, devStatusMargin snr]) :: as, mask', ?_, hp, hf⟩
+          have : stOf (c.push 6 [255, devStatusMargin snr]) mask = stOf c mask := by simp only [stOf]; rw [hpc.1, hpc.2]
+          rw [this] at ha
+          exact .devStatus p rest _ as _ ha
+        · -- RXTimingSetupReq
+          subst h8
+          rw [handleCmds] at h
+          obtain ⟨b, hb, h⟩ := Except.bind_eq_ok h
+          obtain ⟨d, hd, h⟩ := Except.bind_eq_ok h
+          obtain ⟨as, mask', ha, hp, hf⟩ := ih rest hrl _ c' mask h
+          refine ⟨(8, []) :: as, mask', ?_, ?_, ?_⟩
+          · refine .rxTiming p rest _ (stOf ({ c with cfg := { c.cfg with rx1Delay := d } }.push 8 []) mask) as _ ?_ ha
+            have hpc := push_cfg { c with cfg := { c.cfg with rx1Delay := d } } 8 []
+            exact ⟨b, d, hb, hd, by simp only [stOf]; rw [hpc.1, hpc.2]⟩
+          · rw [hp, pushAll_cons]
+            exact (pushAll_pending_congr _ _ as (by unfold MacCtx.push; (repeat' split) <;> rfl) (by unfold MacCtx.push; (repeat' split) <;> rfl)).1
+          · rw [hf, pushAll_cons]
+            exact (pushAll_pending_congr _ _ as (by unfold MacCtx.push; (repeat' split) <;> rfl) (by unfold MacCtx.push; (repeat' split) <;> rfl)).2
+        · rcases h7a with h7 | hA
+          · -- NewChannelReq
+            subst h7
+            rw [handleCmds] at h
+            simp only [hfix, Bool.false_eq_true, if_false] at h
+            obtain ⟨idx, hidx, h⟩ := Except.bind_eq_ok h
+            obtain ⟨f, hf24, h⟩ := Except.bind_eq_ok h
+            obtain ⟨r, hr, h⟩ := Except.bind_eq_ok h
+            obtain ⟨⟨⟨a, b⟩, region1⟩, hnc, h⟩ := Except.bind_eq_ok h
+            simp only at h
+            obtain ⟨as, mask', ha, hp, hf⟩ := ih rest hrl _ c' mask h
+            obtain ⟨n1, n2, n3⟩ := newChannel_atomic c.region region1 idx f _ a b hnc
+            have hpc := push_cfg { c with region := region1 } 7 [(if a then 1 else 0) + (if b then 2 else 0)]
+            refine ⟨(7, [(if a then 1 else 0) + (if b then 2 else 0)]) :: as, mask', ?_, ?_, ?_⟩
+            · refine .newChannel p rest _ _ (stOf ({ c with region := region1 }.push 7 [(if a then 1 else 0) + (if b then 2 else 0)]) mask) as _ hfix ?_ ha
+              refine ⟨idx, f, r, a, b, hidx, hf24, hr, rfl, by simp only [stOf]; rw [hpc.1], rfl, n1, ?_, ?_⟩
+              · intro hab; simp only [stOf]; rw [hpc.2]; exact n2 hab
+              · intro hab
+                obtain ⟨pl, m, hpl, h1, h2, h3⟩ := n3 hab
+                refine ⟨pl, m, hpl, h1, h2, ?_⟩
+                rcases h3 with ⟨f0, hm, e⟩ | ⟨fne, hfv, r', hr', hm, e⟩
+                · exact Or.inl ⟨f0, hm, by simp only [stOf]; rw [hpc.2]; exact e⟩
+                · right
+                  have hrr : ¬ r / 16 < r % 16 ∧ r' = r := by
+                    by_cases hlt : r / 16 < r % 16
+                    · simp [hlt] at hr'
+                    · simp only [hlt, if_false, Option.some.injEq] at hr'; exact ⟨hlt, hr'.symm⟩
+                  obtain ⟨hlt, rfl⟩ := hrr
+                  exact ⟨fne, hfv, by omega, hm, by simp only [stOf]; rw [hpc.2]; exact e⟩
+            · rw [hp, pushAll_cons]
+              exact (pushAll_pending_congr _ _ as (by unfold MacCtx.push; (repeat' split) <;> rfl) (by unfold MacCtx.push; (repeat' split) <;> rfl)).1
+            · rw [hf, pushAll_cons]
+              exact (pushAll_pending_congr _ _ as (by unfold MacCtx.push; (repeat' split) <;> rfl) (by unfold MacCtx.push; (repeat' split) <;> rfl)).2
+          · -- DlChannelReq
+            subst hA
+            rw [handleCmds] at h
+            simp only [hfix, Bool.false_eq_true, if_false] at h
+            obtain ⟨idx, hidx, h⟩ := Except.bind_eq_ok h
+            obtain ⟨f, hf24, h⟩ := Except.bind_eq_ok h
+            obtain ⟨⟨⟨a, b⟩, region1⟩, hdc, h⟩ := Except.bind_eq_ok h
+            simp only at h
+            obtain ⟨as, mask', ha, hp, hf⟩ := ih rest hrl _ c' mask h
+            obtain ⟨d1, d2, d3⟩ := dlChannel_atomic c.region region1 idx f a b hdc
+            have hpc := push_cfg { c with region := region1 } 10 [(if a then 1 else 0) + (if b then 2 else 0)]
+            refine ⟨(10, [(if a then 1 else 0) + (if b then 2 else 0)]) :: as, mask', ?_, ?_, ?_⟩
+            · refine .dlChannel p rest _ _ (stOf ({ c with region := region1 }.push 10 [(if a then 1 else 0) + (if b then 2 else 0)]) mask) as _ hfix ?_ ha
+              refine ⟨idx, f, a, b, hidx, hf24, rfl, by simp only [stOf]; rw [hpc.1], rfl, d1, ?_, ?_⟩
+              · intro hab; simp only [stOf]; rw [hpc.2]; exact d2 hab
+              · intro hab
+                obtain ⟨pl, ch, hpl, h1, h2, h3, h4, e⟩ := d3 hab
+                exact ⟨pl, ch, hpl, h1, h2, h3, h4, by simp only [stOf]; rw [hpc.2]; exact e⟩
+            · rw [hp, pushAll_cons]
+              exact (pushAll_pending_congr _ _ as (by unfold MacCtx.push; (repeat' split) <;> rfl) (by unfold MacCtx.push; (repeat' split) <;> rfl)).1
+            · rw [hf, pushAll_cons]
+              exact (pushAll_pending_congr _ _ as (by unfold MacCtx.push; (repeat' split) <;> rfl) (by unfold MacCtx.push; (repeat' split) <;> rfl)).2
+
+
+/-- the parsed command stream of a byte string (FOpts or a port-0 payload) -/
+def cmdsOf (bytes : List Nat) : List Cmd := parseDownlinkCmds (bytes.length + 1) bytes
+
+/-- queueing whole answers greedily into `room` bytes: after the first answer that does not fit,
+nothing is queued any more — only trailing answers are lost -/
+def fit : Nat → List Ans → List Ans
+  | _, [] => []
+  | room, a :: as => if a.2.length + 1 ≤ room then a :: fit (room - (a.2.length + 1)) as else []
+
+/-- wire form of a list of answers -/
+def wires (as : List Ans) : List Nat := (as.map wire).flatten
+
+theorem pushAll_full (c : MacCtx) (as : List Ans) (h : c.full = true) : pushAll c as = c := by
+  induction as with
+  | nil => rfl
+  | cons a rest ih => rw [pushAll_cons, push_after_full c a.1 a.2 h, ih]
+
+theorem pushAll_spec (c : MacCtx) (as : List Ans) (h : c.full = false) :
+    (pushAll c as).pending = c.pending ++ wires (fit (15 - c.pending.length) as) ∧
+    ((pushAll c as).full = true ↔ fit (15 - c.pending.length) as ≠ as) := by
+  induction as generalizing c with
+  | nil => simp [pushAll, fit, wires, h]
+  | cons a rest ih =>
+    obtain ⟨cid, pl⟩ := a
+    rw [pushAll_cons]
+    rcases push_drop_iff c cid pl h with ⟨hp, hf, hfit⟩ | ⟨hp, hf, hnofit⟩
+    · have hcond : pl.length + 1 ≤ 15 - c.pending.length := by omega
+      obtain ⟨ih1, ih2⟩ := ih (c.push cid pl) hf
+      have hroom : 15 - (c.push cid pl).pending.length = 15 - c.pending.length - (pl.length + 1) := by
+        rw [hp]; simp only [List.length_append, List.length_cons]; omega
+      rw [hroom] at ih1 ih2
+      simp only [fit, hcond, if_true]
+      constructor
+      · rw [ih1, hp]; simp [wires, wire]
+      · rw [ih2]; simp
+    · have hcond : ¬ pl.length + 1 ≤ 15 - c.pending.length := by omega
+      rw [pushAll_full _ _ hf]
+      simp only [fit, hcond, if_false]
+      exact ⟨by rw [hp]; simp [wires], by simp [hf]⟩
+
+theorem fit_prefix (room : Nat) (as : List Ans) : fit room as <+: as := by
+  induction as generalizing room with
+  | nil => exact List.prefix_refl _
+  | cons a rest ih =>
+    unfold fit
+    split
+    · exact (List.prefix_cons_inj a).mpr (ih _)
+    · exact List.nil_prefix
+
+theorem wires_fit_le (room : Nat) (as : List Ans) : (wires (fit room as)).length ≤ room := by
+  induction as generalizing room with
+  | nil => simp [fit, wires]
+  | cons a rest ih =>
+    unfold fit
+    split
+    · rename_i h
+      have := ih (room - (a.2.length + 1))
+      simp only [wires, List.map_cons, List.flatten_cons, List.length_append, wire, List.length_cons] at this ⊢
+      omega
+    · simp [wires]
+
+/-- **the answers to a whole downlink command stream** (`handle_downlink_macs` on FOpts or on a
+port-0 payload): there is a list `as` of answers — ONE per handled request, in request order, a
+LinkADRReq block answered with identical copies, each with the outcome `Answers` spells out
+(acknowledged ⇒ took effect exactly as commanded, any rejection ⇒ changed nothing, invalid fields
+rejected) — and the pending queue after the stream is the old queue followed by exactly the whole
+answers of the longest prefix of `as` that fits the 15-byte limit (`fit`): cut only where the limit is
+reached, and nothing later is kept. -/
+theorem handleCmds_answers (snr : Int) (bytes : List Nat) (c c' : MacCtx) (hfull : c.full = false)
+    (h : handleDownlinkMacs snr bytes c = .ok c') :
+    ∃ as mask', Answers snr (cmdsOf bytes) (c.cfg, c.region, channelMaskGet c.region) as (c'.cfg, c'.region, mask') ∧
+      c'.pending = c.pending ++ wires (fit (15 - c.pending.length) as) ∧
+      (c'.full = true ↔ fit (15 - c.pending.length) as ≠ as) := by
+  unfold handleDownlinkMacs at h
+  obtain ⟨as, mask', ha, hp, hf⟩ := handleCmds_sem_aux snr _ _ (Nat.le_refl _) c c' _ h
+  obtain ⟨s1, s2⟩ := pushAll_spec c as hfull
+  exact ⟨as, mask', ha, by rw [hp, s1], by rw [hf, s2]⟩
+
+/-- once the queue is closed (an earlier answer of this downlink did not fit) the stream still takes
+effect but queues nothing -/
+theorem handleCmds_answers_full (snr : Int) (bytes : List Nat) (c c' : MacCtx) (hfull : c.full = true)
+    (h : handleDownlinkMacs snr bytes c = .ok c') :
+    ∃ as mask', Answers snr (cmdsOf bytes) (c.cfg, c.region, channelMaskGet c.region) as (c'.cfg, c'.region, mask') ∧
+      c'.pending = c.pending ∧ c'.full = true := by
+  unfold handleDownlinkMacs at h
+  obtain ⟨as, mask', ha, hp, hf⟩ := handleCmds_sem_aux snr _ _ (Nat.le_refl _) c c' _ h
+  rw [pushAll_full c as hfull] at hp hf
+  exact ⟨as, mask', ha, hp, by rw [hf, hfull]⟩
+
+
+theorem fit_append_of_all (room : Nat) (as bs : List Ans) (h : fit room as = as) :
+    fit room (as ++ bs) = as ++ fit (room - (wires as).length) bs := by
+  induction as generalizing room with
+  | nil => simp [wires]
+  | cons a rest ih =>
+    unfold fit at h
+    split at h
+    · rename_i hc
+      simp only [List.cons.injEq, true_and] at h
+      simp only [List.cons_append, fit, hc, if_true, ih _ h, wires, List.map_cons, List.flatten_cons, List.length_append, wire,
+        List.length_cons]
+      congr 2
+      simp only [wires] at *
+      congr 1
+      omega
+    · cases h
+
+theorem fit_append_of_cut (room : Nat) (as bs : List Ans) (h : fit room as ≠ as) : fit room (as ++ bs) = fit room as := by
+  induction as generalizing room with
+  | nil => exact absurd rfl h
+  | cons a rest ih =>
+    simp only [List.cons_append, fit] at h ⊢
+    split
+    · rename_i hc
+      simp only [hc, if_true, ne_eq, List.cons.injEq, true_and] at h
+      rw [ih _ h]
+    · rfl
+
+/-- **both command streams of a frame accepted in a Class A window** (FOpts, then the FRMPayload when
+it is on port 0): the queue left for the next uplink is exactly the whole answers of the longest
+prefix of all answers, in request order, that fits 15 bytes — answers pending from before are gone -/
+theorem accept_answers (pending : List Nat) (cfg : Config) (region : RegionState) (d : RxData) (snr : Int) (ctx : MacCtx)
+    (h : acceptCmds pending cfg region d snr false = .ok ctx) :
+    ∃ as1 as2 cfg1 rg1 m1,
+      Answers snr (cmdsOf d.fopts) (cfg, region, channelMaskGet region) as1 (cfg1, rg1, m1) ∧
+      (if d.fport = some 0 then ∃ m2, Answers snr (cmdsOf d.payload) (cfg1, rg1, channelMaskGet rg1) as2 (ctx.cfg, ctx.region, m2)
+       else as2 = [] ∧ ctx.cfg = cfg1 ∧ ctx.region = rg1) ∧
+      ctx.pending = wires (fit 15 (as1 ++ as2)) := by
+  unfold acceptCmds at h
+  simp only [Bool.false_eq_true, if_false] at h
+  obtain ⟨c1, h1, h⟩ := Except.bind_eq_ok h
+  obtain ⟨as1, m1, ha1, hp1, hf1⟩ := handleCmds_answers snr d.fopts _ c1 rfl h1
+  simp only [List.length_nil, Nat.sub_zero, List.nil_append] at hp1 hf1
+  by_cases hport : d.fport = some 0
+  · have hb : (d.fport == some 0) = true := by simp [hport]
+    simp only [hb, if_true] at h
+    cases hfull : c1.full with
+    | false =>
+      obtain ⟨as2, m2, ha2, hp2, _⟩ := handleCmds_answers snr d.payload c1 ctx hfull h
+      have hall : fit 15 as1 = as1 := by
+        by_cases hq : fit 15 as1 = as1
+        · exact hq
+        · have := hf1.mpr hq; rw [hfull] at this; cases this
+      refine ⟨as1, as2, c1.cfg, c1.region, m1, ha1, by simp only [hport, if_true]; exact ⟨m2, ha2⟩, ?_⟩
+      rw [hp2, hp1, fit_append_of_all 15 as1 as2 hall, hall]
+      simp [wires]
+    | true =>
+      obtain ⟨as2, m2, ha2, hp2, _⟩ := handleCmds_answers_full snr d.payload c1 ctx hfull h
+      refine ⟨as1, as2, c1.cfg, c1.region, m1, ha1, by simp only [hport, if_true]; exact ⟨m2, ha2⟩, ?_⟩
+      rw [hp2, hp1, fit_append_of_cut 15 as1 as2 (hf1.mp hfull)]
+  · have hb : (d.fport == some 0) = false := by simp [hport]
+    simp only [hb, Bool.false_eq_true, if_false] at h
+    cases Except.pure_eq_ok h
+    exact ⟨as1, [], ctx.cfg, ctx.region, m1, ha1, by rw [if_neg hport]; exact ⟨rfl, rfl, rfl⟩, by simpa using hp1⟩
+
+/-! ## the shape of the answers, without the state -/
+
+/-- one answer per handled request in request order, a LinkADRReq block answered with identical
+copies — the part of `Answers` that does not mention the device state -/
+inductive Shape (r : RegionId) (snr : Int) : List Cmd → List Ans → Prop
+  | nil : Shape r snr [] []
+  | skip (cid : Nat) (p : List Nat) (rest : List Cmd) (as : List Ans) (h : handled r cid = false) (hr : Shape r snr rest as) :
+      Shape r snr ((cid, p) :: rest) as
+  | devStatus (p : List Nat) (rest : List Cmd) (as : List Ans) (hr : Shape r snr rest as) :
+      Shape r snr ((0x06, p) :: rest) ((0x06, [255, devStatusMargin snr]) :: as)
+  | rxTiming (p : List Nat) (rest : List Cmd) (as : List Ans) (hr : Shape r snr rest as) :
+      Shape r snr ((0x08, p) :: rest) ((0x08, []) :: as)
+  | status (cid : Nat) (p : List Nat) (rest : List Cmd) (ans : Nat) (as : List Ans)
+      (hc : cid = 0x05 ∨ ((cid = 0x07 ∨ cid = 0x0A) ∧ r.isFixed = false)) (hr : Shape r snr rest as) :
+      Shape r snr ((cid, p) :: rest) ((cid, [ans]) :: as)
+  | linkAdr (ps : List (List Nat)) (p : List Nat) (rest : List Cmd) (ans : Nat) (as : List Ans)
+      (hrest : startsAdr rest = false) (hr : Shape r snr rest as) :
+      Shape r snr ((ps ++ [p]).map (fun q => (0x03, q)) ++ rest) (List.replicate (ps.length + 1) (0x03, [ans]) ++ as)
+
+theorem channelMaskSet_id (rs : RegionState) (m : Mask) : (channelMaskSet rs m).id = rs.id := by
+  unfold channelMaskSet; split <;> rfl
+
+theorem Answers.shape {snr : Int} {cmds : List Cmd} {st st' : St} {as : List Ans} (h : Answers snr cmds st as st') :
+    Shape st.2.1.id snr cmds as ∧ st'.2.1.id = st.2.1.id := by
+  induction h with
+  | nil st => exact ⟨.nil, rfl⟩
+  | skip cid p rest st as st' hh _ ih => exact ⟨.skip cid p rest as hh ih.1, ih.2⟩
+  | devStatus p rest st as st' _ ih => exact ⟨.devStatus p rest as ih.1, ih.2⟩
+  | rxParam p rest st ans st1 as st' ho _ ih =>
+    obtain ⟨dl, f, _, _, e, _⟩ := ho
+    rw [e] at ih
+    exact ⟨.status 5 p rest ans as (Or.inl rfl) ih.1, ih.2⟩
+  | rxTiming p rest st st1 as st' ho _ ih =>
+    obtain ⟨b, d, _, _, e⟩ := ho
+    subst e
+    exact ⟨.rxTiming p rest as ih.1, ih.2⟩
+  | newChannel p rest st ans st1 as st' hf ho _ ih =>
+    obtain ⟨idx, f, r, a, b, _, _, _, _, _, _, _, hno, hyes⟩ := ho
+    have hid : st1.2.1.id = st.2.1.id := by
+      cases hab : (a && b) with
+      | false => rw [hno hab]
+      | true =>
+        obtain ⟨pl, m, _, _, _, hh⟩ := hyes hab
+        rcases hh with ⟨_, _, e⟩ | ⟨_, _, _, _, e⟩ <;> rw [e] <;> rfl
+    rw [hid] at ih
+    exact ⟨.status 7 p rest ans as (Or.inr ⟨Or.inl rfl, hf⟩) ih.1, ih.2⟩
+  | dlChannel p rest st ans st1 as st' hf ho _ ih =>
+    obtain ⟨idx, f, a, b, _, _, _, _, _, _, hno, hyes⟩ := ho
+    have hid : st1.2.1.id = st.2.1.id := by
+      cases hab : (a && b) with
+      | false => rw [hno hab]
+      | true =>
+        obtain ⟨pl, c, _, _, _, _, _, e⟩ := hyes hab
+        rw [e]; rfl
+    rw [hid] at ih
+    exact ⟨.status 10 p rest ans as (Or.inr ⟨Or.inr rfl, hf⟩) ih.1, ih.2⟩
+  | linkAdr ps p rest st ans st1 as st' hrest ho _ ih =>
+    obtain ⟨mask, rfu, b0, _, _, h7, hn, _⟩ := ho
+    have hid : st1.2.1.id = st.2.1.id := by
+      by_cases ha : ans = 7
+      · obtain ⟨d, pw, _, _, _, e⟩ := h7 ha
+        rw [e]; exact channelMaskSet_id _ _
+      · rw [(hn ha).2]
+    rw [hid] at ih
+    exact ⟨.linkAdr ps p rest ans as hrest ih.1, ih.2⟩
+
+/-- every answer is a whole uplink MAC command -/
+theorem Shape.whole {r : RegionId} {snr : Int} {cmds : List Cmd} {as : List Ans} (h : Shape r snr cmds as) : Whole as := by
+  induction h with
+  | nil => intro a ha; cases ha
+  | skip cid p rest as _ _ ih => exact ih
+  | devStatus p rest as _ ih =>
+    intro a ha
+    rcases List.mem_cons.mp ha with rfl | ha
+    · rfl
+    · exact ih a ha
+  | rxTiming p rest as _ ih =>
+    intro a ha
+    rcases List.mem_cons.mp ha with rfl | ha
+    · rfl
+    · exact ih a ha
+  | status cid p rest ans as hc _ ih =>
+    intro a ha
+    rcases List.mem_cons.mp ha with rfl | ha
+    · rcases hc with rfl | ⟨rfl | rfl, _⟩ <;> rfl
+    · exact ih a ha
+  | linkAdr ps p rest ans as _ _ ih =>
+    intro a ha
+    rcases List.mem_append.mp ha with ha | ha
+    · rw [List.eq_of_mem_replicate ha]; rfl
+    · exact ih a ha
+
+
 /-! non-vacuity -/
 def cfg0 : Config :=
   { dataRate := 0, rx1Delay := 1000, txPower := none, rx1DrOffset := 0, rx2DataRate := none, rx2Frequency := none, adrEnabled := true }
@@ -332,6 +1036,406 @@ example : ((channelDlUpdate (RegionState.init .EU868) 0 867100000).toOption.map 
 example : ((handleNewChannel (RegionState.init .EU868) 4 867300000 (some 0x50)).toOption.map (·.1)) = some (true, true) := by decide
 example : ((handleNewChannel (RegionState.init .EU868) 1 867300000 (some 0x50)).toOption.map (·.1)) = some (false, false) := by decide
 example : retainSticky 16 [0x03, 7, 0x05, 7, 0x06, 255, 0, 0x08, 0x0A, 3] = [0x05, 7, 0x08, 0x0A, 3] := by decide
+
+
+/-! ## histories: what the next uplink carries -/
+
+/-- the MAC-command field of an uplink: FOpts, or the FRMPayload of a port-0 frame -/
+def macField (u : UplinkDesc) : List Nat := if u.fport != 0 then u.fopts else u.payload
+
+/-- the answers to both command streams of a frame (FOpts, then a port-0 payload), by shape -/
+def frameShape (r : RegionId) (d : RxData) (snr : Int) (as : List Ans) : Prop :=
+  ∃ as1 as2, Shape r snr (cmdsOf d.fopts) as1 ∧
+    (if d.fport = some 0 then Shape r snr (cmdsOf d.payload) as2 else as2 = []) ∧ as = as1 ++ as2
+
+/-- reference state for the answers: the session tracker of C05 and the whole answers the next uplink owes -/
+abbrev AG := Gh × List Ans
+
+/-- **one event, seen from the answer queue.**  An uplink of a joined device carries exactly the owed
+answers (in FOpts, or as port-0 payload); if the reference accepts a frame in one of its Class A
+windows (also when a radio fault cuts the procedure short afterwards), the device then owes exactly the
+longest fitting prefix of the answers to that frame's requests — everything owed before is gone;
+otherwise it goes on owing the sticky answers (RXParamSetupAns, RXTimingSetupAns, DlChannelAns) only.
+Class C receptions and the ADR/data-rate calls do not touch the queue; activation empties it. -/
+def AnsStep (r : RegionId) (g : AG) (ev : Ev) (out : Out) (g' : AG) : Prop :=
+  g'.1 = ghStep g.1 ev ∧
+  match ev, g.1 with
+  | .uplink _ _ _ fault rx1 rx2 mp1 mp2, some last =>
+    (∃ so resp dl, out = .up so resp dl ∧ macField so.frame = wires g.2) ∧
+    (match upRes last fault rx1 rx2 mp1 mp2 with
+     | .accepted _ d snr => ∃ as, frameShape r d snr as ∧ g'.2 = fit 15 as
+     | _ => g'.2 = g.2.filter (fun a => isSticky a.1))
+  | .joinAbp _ _ _, _ => g'.2 = []
+  | .joinOtaa _ _ _ _ _, _ => g'.2 = []
+  | _, _ => g'.2 = g.2
+
+/-- the tie between model state and reference state -/
+def AnsRel (r : RegionId) (m : MacState) (g : AG) : Prop :=
+  GhRel m g.1 ∧ MacWF m ∧ m.region.id = r ∧ ∀ s, m.st = .joined s → s.pending = wires g.2 ∧ Whole g.2
+
+theorem whole_filter {as : List Ans} (h : Whole as) (f : Ans → Bool) : Whole (as.filter f) :=
+  fun a ha => h a (List.mem_filter.mp ha).1
+
+theorem whole_prefix {as bs : List Ans} (h : Whole bs) (hp : as <+: bs) : Whole as :=
+  fun a ha => h a (hp.subset ha)
+
+theorem whole_append {as bs : List Ans} (ha : Whole as) (hb : Whole bs) : Whole (as ++ bs) := by
+  intro a h
+  rcases List.mem_append.mp h with h | h
+  · exact ha a h
+  · exact hb a h
+
+theorem frameShape_whole {r : RegionId} {d : RxData} {snr : Int} {as : List Ans} (h : frameShape r d snr as) : Whole as := by
+  obtain ⟨as1, as2, h1, h2, rfl⟩ := h
+  refine whole_append h1.whole ?_
+  split at h2
+  · exact h2.whole
+  · subst h2; intro a ha; cases ha
+
+theorem sentSession_pending (s : Session) (conf : Bool) (pend : List Ans) (hp : s.pending = wires pend) (hw : Whole pend) :
+    (sentSession s conf).pending = wires (pend.filter (fun a => isSticky a.1)) := by
+  simp only [sentSession]
+  rw [hp]
+  exact retainSticky_spec pend hw _ (Nat.lt_succ_self _)
+
+theorem timeoutState_pending (m : MacState) (s' : Session) (h : (timeoutState m).st = .joined s') :
+    ∃ s, m.st = .joined s ∧ s'.pending = s.pending := by
+  by_cases hj : ∃ s, m.st = .joined s
+  · obtain ⟨s, hs⟩ := hj
+    obtain ⟨fu, cnt, cfg', e⟩ := timeoutState_joined m s hs
+    rw [e] at h
+    simp only [JoinState.joined.injEq] at h
+    subst h
+    exact ⟨s, hs, rfl⟩
+  · rw [timeoutState_notJoined m (fun s hs => hj ⟨s, hs⟩)] at h
+    exact absurd ⟨s', h⟩ hj
+
+theorem accept_frameShape (pending : List Nat) (cfg : Config) (region : RegionState) (d : RxData) (snr : Int) (ctx : MacCtx)
+    (h : acceptCmds pending cfg region d snr false = .ok ctx) :
+    ∃ as, frameShape region.id d snr as ∧ ctx.pending = wires (fit 15 as) := by
+  obtain ⟨as1, as2, cfg1, rg1, m1, ha1, ha2, hp⟩ := accept_answers pending cfg region d snr ctx h
+  obtain ⟨hs1, hid1⟩ := ha1.shape
+  refine ⟨as1 ++ as2, ⟨as1, as2, hs1, ?_, rfl⟩, hp⟩
+  by_cases hport : d.fport = some 0
+  · rw [if_pos hport] at ha2 ⊢
+    obtain ⟨m2, ha2⟩ := ha2
+    have := ha2.shape.1
+    simp only at this hid1
+    rw [hid1] at this
+    exact this
+  · rw [if_neg hport] at ha2 ⊢
+    exact ha2.1
+
+theorem acceptState_pending (m : MacState) (s : Session) (d : RxData) (N : Nat) (ctx : MacCtx) (s' : Session)
+    (h : (acceptState m s d N ctx).st = .joined s') : s'.pending = ctx.pending := by
+  obtain ⟨fu, e⟩ := acceptFinish_session s d N ctx
+  rw [acceptState_st, e] at h
+  simp only [JoinState.joined.injEq] at h
+  subst h; rfl
+
+theorem step_ansRel {σ} (g : Rng σ) (r : RegionId) (m m' : MacState) (rs rs' : σ) (ev : Ev) (out : Out) (ag : AG)
+    (hr : AnsRel r m ag) (hv : evOk ev = true ∧ validEv r ev = true) (h : step g (m, rs) ev = .ok ((m', rs'), out)) :
+    ∃ ag', AnsStep r ag ev out ag' ∧ AnsRel r m' ag' := by
+  obtain ⟨gh, pend⟩ := ag
+  obtain ⟨hgh, hwf, hid, hpend⟩ := hr
+  simp only at hgh hpend
+  have hgh' := step_ghRel g m m' rs rs' ev out gh hgh hv.1 h
+  have hk : Keeps m m' := (step_safe g m rs ev hwf (by unfold ValidEv; rw [hid]; exact hv.2)).elim h
+  have hid' : m'.region.id = r := by rw [hk.2.1, hid]
+  -- it suffices to name the new queue and show the two facts about it
+  suffices hs : ∃ pend', (AnsStep r (gh, pend) ev out (ghStep gh ev, pend')) ∧
+      (∀ s, m'.st = .joined s → s.pending = wires pend' ∧ Whole pend') by
+    obtain ⟨pend', h1, h2⟩ := hs
+    exact ⟨(ghStep gh ev, pend'), h1, hgh', hk.1, hid', h2⟩
+  cases ev with
+  | joinAbp da nwk app =>
+    simp only [step, pure, Except.pure, Except.ok.injEq, Prod.mk.injEq] at h
+    obtain ⟨⟨rfl, _⟩, _⟩ := h
+    refine ⟨[], ⟨rfl, by cases gh <;> rfl⟩, ?_⟩
+    intro s hs
+    simp only [macJoinAbp, JoinState.joined.injEq] at hs
+    subst hs
+    exact ⟨rfl, fun a ha => by cases ha⟩
+  | setDr dr =>
+    simp only [step, pure, Except.pure, Except.ok.injEq, Prod.mk.injEq] at h
+    obtain ⟨⟨rfl, _⟩, _⟩ := h
+    exact ⟨pend, ⟨rfl, by cases gh <;> rfl⟩, hpend⟩
+  | setAdr on =>
+    simp only [step, pure, Except.pure, Except.ok.injEq, Prod.mk.injEq] at h
+    obtain ⟨⟨rfl, _⟩, _⟩ := h
+    refine ⟨pend, ⟨rfl, by cases gh <;> rfl⟩, ?_⟩
+    intro s' hs'
+    by_cases hj : ∃ s, m.st = .joined s
+    · obtain ⟨s, hs⟩ := hj
+      obtain ⟨cnt, e⟩ := (macSetAdr_st m on).1 s hs
+      rw [e] at hs'
+      simp only [JoinState.joined.injEq] at hs'
+      subst hs'
+      exact hpend s hs
+    · rw [(macSetAdr_st m on).2 (fun s hs => hj ⟨s, hs⟩)] at hs'
+      exact absurd ⟨s', hs'⟩ hj
+  | joinOtaa fault rx1 rx2 mp1 mp2 =>
+    obtain ⟨jo, m1, o, _, hst1, _, ht⟩ := step_joinOtaa_inv g m m' rs rs' fault rx1 rx2 mp1 mp2 out h
+    refine ⟨[], ⟨rfl, by cases gh <;> rfl⟩, ?_⟩
+    intro s hs
+    cases hj : joinRes fault rx1 rx2 with
+    | some j =>
+      simp only [hj] at ht
+      rw [otaaAccept_st m1 m' j ht.1] at hs
+      simp only [JoinState.joined.injEq] at hs
+      subst hs
+      exact ⟨rfl, fun a ha => by cases ha⟩
+    | none =>
+      simp only [hj] at ht
+      obtain ⟨rfl, _⟩ := ht
+      rw [hst1] at hs; cases hs
+  | rxc v snr mp =>
+    cases gh with
+    | none =>
+      obtain ⟨rfl, _, _⟩ := step_rxc_notJoined g m m' rs rs' hgh v snr mp out h
+      exact ⟨pend, ⟨rfl, rfl⟩, hpend⟩
+    | some last =>
+      obtain ⟨s, hst, rfl, hl⟩ := hgh
+      have hvv : viewOk v = true := by simpa [evOk] using hv.1
+      obtain ⟨_, rf, _, ht⟩ := step_rxc_joined g m m' rs rs' s hst hl v snr mp hvv out h
+      refine ⟨pend, ⟨rfl, rfl⟩, ?_⟩
+      intro s' hs'
+      cases hs : specRxc s.fcntDown v mp with
+      | none =>
+        simp only [hs] at ht
+        obtain ⟨rfl, _⟩ := ht
+        exact hpend s' hs'
+      | some p =>
+        obtain ⟨N, d⟩ := p
+        simp only [hs] at ht
+        obtain ⟨rfl, _⟩ := ht
+        rw [acceptState_pending m s d N _ s' hs']
+        exact hpend s hst
+  | uplink data fport conf fault rx1 rx2 mp1 mp2 =>
+    cases gh with
+    | none =>
+      obtain ⟨rfl, _, _⟩ := step_uplink_notJoined g m m' rs rs' hgh data fport conf fault rx1 rx2 mp1 mp2 out h
+      exact ⟨pend, ⟨rfl, rfl⟩, hpend⟩
+    | some last =>
+      obtain ⟨s, hst, rfl, hl⟩ := hgh
+      have hvv : rxOk rx1 = true ∧ rxOk rx2 = true := by simpa [evOk] using hv.1
+      have hval : (fport = 0 → data = []) ∧ data.length ≤ 222 := by
+        have := hv.2
+        simp only [validEv, Bool.and_eq_true, Bool.or_eq_true, bne_iff_ne, ne_eq, List.isEmpty_iff, decide_eq_true_eq] at this
+        exact ⟨fun e => by rcases this.1.1.1 with h0 | h0; exact absurd e h0; exact h0, this.1.1.2⟩
+      obtain ⟨so, m1, hsend, hfr, hst1, hcfg1, ht⟩ :=
+        step_uplink_joined g m m' rs rs' s hst hl data fport conf fault rx1 rx2 mp1 mp2 hvv.1 hvv.2 out h
+      have hk1 : Keeps m m1 := (macSend_safe g m data fport conf rs hwf hval.1 hval.2).elim hsend
+      have hid1 : m1.region.id = r := by rw [hk1.2.1, hid]
+      obtain ⟨hp0, hw0⟩ := hpend s hst
+      have hmac : macField so.frame = wires pend := by
+        rw [hfr, ← hp0]; simp only [macField, descOf]; split <;> rfl
+      have hsent := sentSession_pending s conf pend hp0 hw0
+      have hwsent : Whole (pend.filter (fun a => isSticky a.1)) := whole_filter hw0 _
+      have hout : ∃ so' resp dl, out = .up so' resp dl ∧ macField so'.frame = wires pend := by
+        unfold UplinkTail at ht
+        cases fault with
+        | none =>
+          simp only at ht
+          cases hsc : specCycle (sentSession s conf).fcntDown rx1 rx2 mp1 mp2 with
+          | accepted N d snr => simp only [hsc] at ht; obtain ⟨ctx, _, _, e⟩ := ht; exact ⟨so, _, _, e, hmac⟩
+          | ended => simp only [hsc] at ht; exact ⟨so, _, _, ht.2, hmac⟩
+          | nothing => simp only [hsc] at ht; exact ⟨so, _, _, ht.2, hmac⟩
+        | some k =>
+          simp only at ht
+          obtain ⟨m2, _, _, e⟩ := ht
+          exact ⟨so, _, _, e, hmac⟩
+      -- the verdict, and the state it leaves
+      have hfd : (sentSession s conf).fcntDown = s.fcntDown := rfl
+      cases hu : upRes s.fcntDown fault rx1 rx2 mp1 mp2 with
+      | accepted N d snr =>
+        have hctx : ∃ ctx, acceptCmds (sentSession s conf).pending m1.cfg m1.region d snr false = .ok ctx ∧
+            (m' = acceptState m1 (sentSession s conf) d N ctx ∨ m' = timeoutState (acceptState m1 (sentSession s conf) d N ctx)) := by
+          unfold UplinkTail at ht
+          unfold upRes at hu
+          cases fault with
+          | none =>
+            simp only at ht hu
+            rw [hfd, hu] at ht
+            obtain ⟨ctx, hc, e, _⟩ := ht
+            exact ⟨ctx, hc, Or.inl e⟩
+          | some k =>
+            simp only at ht hu
+            rw [hfd, hu] at ht
+            obtain ⟨m2, ⟨ctx, hc, e2⟩, e, _⟩ := ht
+            exact ⟨ctx, hc, Or.inr (by rw [e, e2]; rfl)⟩
+        obtain ⟨ctx, hc, hm'⟩ := hctx
+        obtain ⟨as, hshape, hpc⟩ := accept_frameShape _ _ _ d snr ctx hc
+        rw [hid1] at hshape
+        refine ⟨fit 15 as, ⟨rfl, ?_⟩, ?_⟩
+        · simp only [hout, hu, true_and]
+          exact ⟨as, hshape, rfl⟩
+        · intro s' hs'
+          refine ⟨?_, whole_prefix (frameShape_whole hshape) (fit_prefix _ _)⟩
+          rcases hm' with rfl | rfl
+          · rw [acceptState_pending _ _ d N ctx s' hs', hpc]
+          · obtain ⟨s2, hs2, e⟩ := timeoutState_pending _ s' hs'
+            rw [e, acceptState_pending _ _ d N ctx s2 hs2, hpc]
+      | ended =>
+        have hm' : m' = timeoutState m1 ∨ m' = timeoutState (timeoutState m1) := by
+          unfold UplinkTail at ht
+          unfold upRes at hu
+          cases fault with
+          | none => simp only at ht hu; rw [hfd, hu] at ht; exact Or.inl ht.1
+          | some k =>
+            simp only at ht hu; rw [hfd, hu] at ht
+            obtain ⟨m2, e2, e, _⟩ := ht
+            exact Or.inr (by rw [e, e2]; rfl)
+        refine ⟨pend.filter (fun a => isSticky a.1), ⟨rfl, ?_⟩, ?_⟩
+        · simp only [hout, hu, true_and]
+        · intro s' hs'
+          refine ⟨?_, hwsent⟩
+          rcases hm' with rfl | rfl
+          · obtain ⟨s2, hs2, e⟩ := timeoutState_pending _ s' hs'
+            rw [hst1] at hs2; cases hs2
+            rw [e, hsent]
+          · obtain ⟨s2, hs2, e⟩ := timeoutState_pending _ s' hs'
+            obtain ⟨s3, hs3, e3⟩ := timeoutState_pending _ s2 hs2
+            rw [hst1] at hs3; cases hs3
+            rw [e, e3, hsent]
+      | nothing =>
+        have hm' : m' = timeoutState m1 := by
+          unfold UplinkTail at ht
+          unfold upRes at hu
+          cases fault with
+          | none => simp only at ht hu; rw [hfd, hu] at ht; exact ht.1
+          | some k =>
+            simp only at ht hu; rw [hfd, hu] at ht
+            obtain ⟨m2, e2, e, _⟩ := ht
+            rw [e, e2]; rfl
+        refine ⟨pend.filter (fun a => isSticky a.1), ⟨rfl, ?_⟩, ?_⟩
+        · simp only [hout, hu, true_and]
+        · intro s' hs'
+          refine ⟨?_, hwsent⟩
+          subst hm'
+          obtain ⟨s2, hs2, e⟩ := timeoutState_pending _ s' hs'
+          rw [hst1] at hs2; cases hs2
+          rw [e, hsent]
+
+
+/-- **C08 over every history**: from any well-formed state the reference state `ag` describes, for
+every history of valid events (frames with 16-bit wire counters) and every random stream, there is a
+run of the reference (`TraceR`) in which EVERY uplink carries exactly the answers owed at that point,
+and the owed answers evolve as `AnsStep` says: after a downlink accepted in a Class A window — one
+answer per handled request in request order, LinkADRReq blocks answered with identical copies, cut
+only at the 15-byte limit; sticky answers repeated in every uplink until the next such downlink, all
+others sent once. -/
+theorem history_answers {σ} (g : Rng σ) (r : RegionId) (m : MacState) (rs : σ) (ag : AG) (hr : AnsRel r m ag)
+    (evs : List Ev) (hv : ∀ ev ∈ evs, evOk ev = true ∧ validEv r ev = true) (ms' : MacState × σ) (outs : List Out)
+    (h : run g (m, rs) evs = .ok (ms', outs)) : TraceR (AnsStep r) ag (evs.zip outs) := by
+  have hc := run_chain g (m, rs) ms' evs outs h
+  exact chain_traceR g (AnsStep r) (AnsRel r) (fun ev => evOk ev = true ∧ validEv r ev = true)
+    (fun m s ev m' s' out gh hr hv hs => step_ansRel g r m m' s s' ev out gh hr hv hs)
+    (m, rs) ms' (evs.zip outs) ag hr (fun x hx => hv x.1 (List.of_mem_zip hx).1) hc
+
+theorem ansRel_init (r : RegionId) (maxPower : Nat) (gain : Int) (hg : gainOk r gain = true) :
+    AnsRel r (MacState.init (RegionState.init r) maxPower gain) (none, []) := by
+  refine ⟨ghRel_init _ _ _, ?_, by cases r <;> rfl, fun s hs => by cases hs⟩
+  apply MacWF.mk
+  · cases r <;> rfl
+  · cases r <;> rfl
+  · cases r <;> exact hg
+  · rfl
+
+/-- … in particular from the initial state of every region -/
+theorem history_answers_init {σ} (g : Rng σ) (r : RegionId) (maxPower : Nat) (gain : Int) (hg : gainOk r gain = true) (rs : σ)
+    (evs : List Ev) (hv : ∀ ev ∈ evs, evOk ev = true ∧ validEv r ev = true) (ms' : MacState × σ) (outs : List Out)
+    (h : run g (MacState.init (RegionState.init r) maxPower gain, rs) evs = .ok (ms', outs)) :
+    TraceR (AnsStep r) (none, []) (evs.zip outs) :=
+  history_answers g r _ rs (none, []) (ansRel_init r maxPower gain hg) evs hv ms' outs h
+
+
+/-- **what an accepted Class A downlink did to the device**, `mi` the state before the uplink, `mi'`
+after the receive procedure (no radio fault): configuration and channel plan of `mi'` are exactly the
+result of the frame's command streams (`Answers`: every acknowledged request took effect as
+commanded, every rejected one changed nothing) applied to `mi`'s configuration and to the channel
+plan as channel selection left it; the queue of `mi'` is the fitting prefix of the answers. -/
+def Effects {σ} (g : Rng σ) (mi : MacState) (rsi : σ) (data : List Nat) (fport : Nat) (conf : Bool) (d : RxData) (snr : Int)
+    (mi' : MacState) : Prop :=
+  ∃ so m1 rs1 as1 as2 cfg1 rg1 mk s',
+    macSend g mi data fport conf rsi = .ok (some so, m1, rs1) ∧ m1.cfg = mi.cfg ∧
+    Answers snr (cmdsOf d.fopts) (mi.cfg, m1.region, channelMaskGet m1.region) as1 (cfg1, rg1, mk) ∧
+    (if d.fport = some 0 then ∃ m2, Answers snr (cmdsOf d.payload) (cfg1, rg1, channelMaskGet rg1) as2 (mi'.cfg, mi'.region, m2)
+     else as2 = [] ∧ mi'.cfg = cfg1 ∧ mi'.region = rg1) ∧
+    mi'.st = .joined s' ∧ s'.pending = wires (fit 15 (as1 ++ as2))
+
+theorem step_effects {σ} (g : Rng σ) (m m' : MacState) (rs rs' : σ) (gh : Gh) (hr : GhRel m gh) (data : List Nat) (fport : Nat)
+    (conf : Bool) (rx1 rx2 : Option (RxView × Int)) (mp1 mp2 : Nat) (hv : evOk (.uplink data fport conf none rx1 rx2 mp1 mp2) = true)
+    (out : Out) (h : step g (m, rs) (.uplink data fport conf none rx1 rx2 mp1 mp2) = .ok ((m', rs'), out))
+    (last : Option Nat) (hgh : gh = some last) (N : Nat) (d : RxData) (snr : Int)
+    (hacc : specCycle last rx1 rx2 mp1 mp2 = .accepted N d snr) : Effects g m rs data fport conf d snr m' := by
+  subst hgh
+  obtain ⟨s, hst, rfl, hl⟩ := hr
+  have hvv : rxOk rx1 = true ∧ rxOk rx2 = true := by simpa [evOk] using hv
+  obtain ⟨so, m1, hsend, _, hst1, hcfg1, ht⟩ :=
+    step_uplink_joined g m m' rs rs' s hst hl data fport conf none rx1 rx2 mp1 mp2 hvv.1 hvv.2 out h
+  unfold UplinkTail at ht
+  simp only at ht
+  have hfd : (sentSession s conf).fcntDown = s.fcntDown := rfl
+  rw [hfd, hacc] at ht
+  obtain ⟨ctx, hc, rfl, _⟩ := ht
+  obtain ⟨as1, as2, cfg1, rg1, mk, ha1, ha2, hp⟩ := accept_answers _ _ _ d snr ctx hc
+  rw [hcfg1] at ha1
+  have hcfg' : (acceptState m1 (sentSession s conf) d N ctx).cfg = ctx.cfg := by
+    unfold acceptState acceptFinish; simp only []; split <;> rfl
+  have hreg' : (acceptState m1 (sentSession s conf) d N ctx).region = ctx.region := by
+    unfold acceptState acceptFinish; simp only []; split <;> rfl
+  obtain ⟨fu, e⟩ := acceptFinish_session (sentSession s conf) d N ctx
+  refine ⟨so, m1, rs', as1, as2, cfg1, rg1, mk, _, hsend, hcfg1, ha1, ?_, acceptState_st _ _ d N ctx, by rw [e]; exact hp⟩
+  rw [hcfg', hreg']
+  exact ha2
+
+/-- **C08 effects over every history**: at every uplink of every history in whose Class A windows the
+reference accepts a frame (no radio fault), `Effects` holds between the state before and the state
+after — the state that all later transmissions and receive windows are computed from (C09, C10). -/
+theorem history_effects {σ} (g : Rng σ) (m : MacState) (rs : σ) (gh : Gh) (hr : GhRel m gh) (evs : List Ev)
+    (hv : ∀ ev ∈ evs, evOk ev = true) (ms' : MacState × σ) (outs : List Out) (h : run g (m, rs) evs = .ok (ms', outs))
+    (i : Nat) (data : List Nat) (fport : Nat) (conf : Bool) (rx1 rx2 : Option (RxView × Int)) (mp1 mp2 : Nat) (out : Out)
+    (hi : (evs.zip outs)[i]? = some (.uplink data fport conf none rx1 rx2 mp1 mp2, out))
+    (last : Option Nat) (hlast : ghRun gh (evs.take i) = some last) (N : Nat) (d : RxData) (snr : Int)
+    (hacc : specCycle last rx1 rx2 mp1 mp2 = .accepted N d snr) :
+    ∃ mi rsi mi' rsi', Chain g (m, rs) ((evs.zip outs).take i) (mi, rsi) ∧
+      Chain g (mi', rsi') ((evs.zip outs).drop (i + 1)) ms' ∧ Effects g mi rsi data fport conf d snr mi' := by
+  have hc := run_chain g (m, rs) ms' evs outs h
+  have hlen := run_outs_length g (m, rs) ms' evs outs h
+  obtain ⟨⟨mi, rsi⟩, ⟨mi', rsi'⟩, h1, hstep, h2⟩ := chain_at g (m, rs) ms' (evs.zip outs) i _ out hc hi
+  have hvz : ∀ x ∈ evs.zip outs, evOk x.1 = true := fun x hx => hv x.1 (List.of_mem_zip hx).1
+  have hri := chain_ghRel g (m, rs) (mi, rsi) _ gh hr (fun x hx => hvz x (List.mem_of_mem_take hx)) h1
+  have hmap : ((evs.zip outs).take i).map (·.1) = evs.take i := by
+    rw [List.map_take, List.map_fst_zip]; omega
+  rw [hmap, hlast] at hri
+  exact ⟨mi, rsi, mi', rsi', h1, h2, step_effects g mi mi' rsi rsi' _ hri data fport conf rx1 rx2 mp1 mp2
+    (hvz _ (List.mem_of_getElem? hi)) out hstep last rfl N d snr hacc⟩
+
+/-! non-vacuity: RXParamSetupReq + DevStatusReq in FOpts of a downlink accepted in RX1; the next
+uplink carries both answers, the one after only the sticky RXParamSetupAns, and after the next
+accepted Class A downlink nothing -/
+def lcg : Rng Nat := fun x => ((x * 1103515245 + 12345) / 65536, x * 1103515245 + 12345)
+
+def dl (w : Nat) (fopts : List Nat) : Option (RxView × Int) :=
+  some (.data { len := 20, confirmed := false, fcnt16 := w, micFcnt := some w, fopts := fopts, fport := some 1, payload := [1] }, 5)
+
+def demoHistory : List Ev :=
+  [ .joinAbp 7 1 2,
+    .uplink [1] 1 false none (dl 1 [0x05, 0x23, 0xD2, 0xAD, 0x84, 0x06]) none 51 51,
+    .uplink [2] 1 false none none none 51 51,
+    .uplink [3] 1 false none none (dl 2 []) 51 51,
+    .uplink [4] 1 false none none none 51 51,
+    .uplink [] 0 false none none none 51 51 ]
+
+def macFields (outs : List Out) : List (List Nat) :=
+  outs.filterMap (fun o => match o with | .up so _ _ => some (macField so.frame) | _ => none)
+
+example : ∀ ev ∈ demoHistory, evOk ev = true ∧ validEv .EU868 ev = true := by decide
+example : (run lcg (MacState.init (RegionState.init .EU868) 14 0, 1) demoHistory).toOption.map (fun r => macFields r.2)
+    = some [[], [0x05, 7, 0x06, 255, 5], [0x05, 7], [], []] := by decide +kernel
+example : fit 15 [(5, [7]), (6, [255, 5])] = [(5, [7]), (6, [255, 5])] := by decide
+example : fit 4 [(5, [7]), (6, [255, 5]), (8, [])] = [(5, [7])] := by decide
 
 end C08
 
@@ -349,3 +1453,13 @@ end C08
 #print axioms C08.dlChannel_atomic
 #print axioms C08.dlChannel_rx1
 #print axioms C08.newChannel_atomic
+#print axioms C08.handleCmds_adr_run
+#print axioms C08.handleCmds_answers
+#print axioms C08.handleCmds_answers_full
+#print axioms C08.accept_answers
+#print axioms C08.Answers.shape
+#print axioms C08.step_ansRel
+#print axioms C08.history_answers
+#print axioms C08.history_answers_init
+#print axioms C08.step_effects
+#print axioms C08.history_effects
